@@ -3,6 +3,27 @@ each property.  A unit may serve several properties; its obligations are
 generated once per check run."""
 
 UNITS = {
+    'C02': {
+        'functions': ['penman.layout:_process_role', 'penman.layout:_process_atomic', 'penman.layout:_preconfigure',
+                      'penman.layout:get_pushed_variable'],
+        'lemmas': ['pops_add_no_entries', 'entry_adds_its_triple'],
+        'level': 'other',
+        'explanation': 'Proved: how a role / an atom and its alignment suffix are split when a tree is read '
+                       '(_process_role, _process_atomic), and that the data configure() works from holds every triple '
+                       'once, in order, unchanged or inverted once, with the non-layout markers kept on it '
+                       '(_preconfigure).  That encode(decode(s)) reproduces the tree (the in-place tree builder behind '
+                       'configure) is decided by the bounded stand-in.',
+    },
+    'C06': {
+        'functions': ['penman.layout:_preconfigure', 'penman.layout:get_pushed_variable'],
+        'lemmas': ['pops_add_no_entries', 'entry_adds_its_triple'],
+        'level': 'other',
+        'explanation': 'Proved: whatever layout markers a graph carries -- naming unknown variables, repeated, or placed '
+                       'on instance triples -- _preconfigure hands configure() every triple exactly once, in order, as it '
+                       'is or inverted once (never an instance triple), and nothing but POPs besides; it never raises.  '
+                       'That configure() then writes exactly this content, and LayoutError iff disconnected, is decided '
+                       'by the bounded stand-in.',
+    },
     'C09': {
         'functions': ['penman._lexer:TokenIterator.__bool__', 'penman._lexer:TokenIterator.peek',
                       'penman._lexer:TokenIterator.next', 'penman._format:format'],
@@ -67,10 +88,13 @@ UNITS = {
     'C03': {
         'functions': ['penman._format:_format_edge', 'penman.model:Model.invert_role', 'penman.model:Model.invert',
                       'penman.model:Model.deinvert', 'penman.model:Model.is_role_inverted',
-                      'penman.graph:Graph.__init__', 'penman.graph:Graph.variables', 'penman.graph:Graph.top'],
-        'lemmas': [],
+                      'penman.graph:Graph.__init__', 'penman.graph:Graph.variables', 'penman.graph:Graph.top',
+                      'penman.layout:_preconfigure'],
+        'lemmas': ['pops_add_no_entries', 'entry_adds_its_triple'],
         'level': 'other',
-        'explanation': 'Proved: the formatter writes every atomic target it is given (0 and 0.0 included; only None and '
+        'explanation': 'Proved: the configuration data holds every triple of the graph exactly once, in order, as it is or '
+                       'inverted once, whatever the markers say (_preconfigure); '
+                       'the formatter writes every atomic target it is given (0 and 0.0 included; only None and '
                        'the empty string count as missing); inversion/deinversion of triples for every model; graph '
                        'construction, variables and top.  That configure places every triple exactly once from any top '
                        '(the in-place tree builder) is decided by the bounded stand-in.',
